@@ -79,7 +79,28 @@ fn gen_cases(seed: u64, thorough: bool) -> Vec<String> {
         out.push(v);
     }
     // stream sizes between 16 MiB and 2^62 are outside the property's quantifier
-    out.into_iter().enumerate().map(|(i, v)| format!("i={i} bytes={}", hex(&v))).collect()
+    let mut lines: Vec<String> = out.into_iter().enumerate().map(|(i, v)| format!("i={i} bytes={}", hex(&v))).collect();
+    // network call sites: the same hostile headers arriving over real sockets at the three
+    // servers and (as replies) at the three clients
+    let mut k = lines.len();
+    let hostile: Vec<(u64, u64, u64, u16)> = vec![
+        (10, u64::MAX - 20, 100, 0x1507), (0, u64::MAX - 47, 0, 0x1507), (48 + (1u64 << 62), 1 << 62, 0, 0x1507),
+        (48u64.wrapping_add(1 << 63), 1 << 63, 0, 0x1507), (u64::MAX, u64::MAX - 48, 1, 0x1507), (48, 0, 0, 0x1234),
+        (60, 5, 5, 0x1507), (47, 0, 0, 0x1507), (u64::MAX, u64::MAX, u64::MAX, 0x1507), (48 + 7, 3, 4, 0x1507),
+    ];
+    let targets = ["tcp", "atcp", "ws", "client", "aclient", "wsclient"];
+    let reps = if thorough { 4 } else { 1 };
+    for _ in 0..reps {
+        for (l, q, b, spec) in &hostile {
+            for t in &targets {
+                let mut v = header_bytes(*l, *q, *b, *spec, &mut rng);
+                // sometimes a few payload bytes follow, sometimes only part of the header is sent
+                match rng.below(3) { 0 => {}, 1 => v.extend(rng.bytes(5)), _ => { if rng.chance(1, 4) { v.truncate(20 + rng.below(28) as usize); } } }
+                lines.push(format!("i={k} kind=net target={t} bytes={}", hex(&v))); k += 1;
+            }
+        }
+    }
+    lines
 }
 
 struct Dribble<'a> { data: &'a [u8], pos: usize, step: usize }
@@ -94,9 +115,84 @@ impl std::io::Read for Dribble<'_> {
 fn res_msg(r: Result<Message, RepeError>) -> String { match r { Ok(m) => msg_s(&m), Err(e) => format!("err:{}", err_kind(&e)) } }
 fn g<T: std::panic::UnwindSafe + FnOnce() -> String>(f: T) -> String { guard(f).unwrap_or_else(|_| "panic".into()) }
 
+struct NetEnv { servers: net::Servers }
+static NETENV: std::sync::OnceLock<NetEnv> = std::sync::OnceLock::new();
+fn netenv() -> &'static NetEnv {
+    NETENV.get_or_init(|| NetEnv { servers: net::start_servers(repe::Router::new().with_json("/ping", |v: serde_json::Value| Ok(v))) })
+}
+fn ping_frame(id: u64) -> Vec<u8> {
+    repe::Message::builder().id(id).query_str("/ping").query_format(repe::QueryFormat::JsonPointer).body_json(&serde_json::json!(7)).unwrap().build().to_vec()
+}
+/// hostile bytes over a real socket: the endpoint must survive (no panic/abort: the whole process
+/// is this child), drop or fail that connection, and keep serving others
+fn run_net(target: &str, bs: &[u8]) -> String {
+    use std::io::Write;
+    use std::time::Duration;
+    let env = netenv();
+    let alive_tcp = |addr| -> bool { net::RawTcp::connect(addr).and_then(|mut c| c.exchange(&ping_frame(9))).map(|r| r.len() > 48 && r[16] == 9).unwrap_or(false) };
+    match target {
+        "tcp" | "atcp" => {
+            let addr = if target == "tcp" { env.servers.tcp } else { env.servers.atcp };
+            let r = (|| -> std::io::Result<String> {
+                let mut c = net::RawTcp::connect(addr)?;
+                c.s.write_all(bs)?;
+                c.s.shutdown(std::net::Shutdown::Write)?;
+                c.s.set_read_timeout(Some(Duration::from_secs(3)))?;
+                let mut sink = Vec::new();
+                use std::io::Read;
+                let n = c.s.read_to_end(&mut sink).unwrap_or(0);
+                Ok(format!("closed:{}", if n == 0 { "silent" } else { "reply" }))
+            })().unwrap_or_else(|e| format!("ioerr:{:?}", e.kind()));
+            format!("net={} alive={}", r, alive_tcp(addr) as u8)
+        }
+        "ws" => {
+            let r = match net::RawWs::connect(env.servers.ws) {
+                Ok(mut c) => { let _ = c.send(bs); match c.recv(Duration::from_millis(1500)) { Ok(f) => format!("reply:{}", f.len()), Err(e) => format!("closed:{}", e.split(' ').next().unwrap_or("x")) } }
+                Err(e) => format!("connerr:{}", e.replace(' ', "_")),
+            };
+            let alive = net::RawWs::connect(env.servers.ws).and_then(|mut c| c.exchange(&ping_frame(9))).map(|r| r.len() > 48 && r[16] == 9).unwrap_or(false);
+            format!("net={} alive={}", r, alive as u8)
+        }
+        "client" | "aclient" => {
+            // a fake server that answers the first request with the hostile bytes and holds the socket open
+            let l = std::net::TcpListener::bind("127.0.0.1:0").unwrap();
+            let addr = l.local_addr().unwrap();
+            let hostile = bs.to_vec();
+            let srv = std::thread::spawn(move || { if let Ok((mut s, _)) = l.accept() { let _ = net::read_raw_frame(&mut s); let _ = s.write_all(&hostile); std::thread::sleep(Duration::from_millis(1500)); } });
+            let res = if target == "client" {
+                let c = repe::Client::connect(addr).unwrap();
+                match c.call_json_with_timeout("/x", &serde_json::json!(1), Duration::from_secs(3)) { Ok(_) => "ok".to_string(), Err(e) => format!("err:{}", matches!(e, repe::RepeError::Io(ref io) if io.kind() == std::io::ErrorKind::TimedOut) as u8) }
+            } else {
+                net::runtime().block_on(async { let c = repe::AsyncClient::connect(addr).await.unwrap(); match c.call_json_with_timeout("/x", &serde_json::json!(1), Duration::from_secs(3)).await { Ok(_) => "ok".to_string(), Err(e) => format!("err:{}", matches!(e, repe::RepeError::Io(ref io) if io.kind() == std::io::ErrorKind::TimedOut) as u8) } })
+            };
+            let _ = srv.join();
+            format!("net={} alive={}", res, alive_tcp(env.servers.tcp) as u8)
+        }
+        _ => {
+            // wsclient: a raw tungstenite server replying with the hostile bytes as one binary message
+            let res = net::runtime().block_on(async {
+                use futures_util::{SinkExt, StreamExt};
+                let l = tokio::net::TcpListener::bind("127.0.0.1:0").await.unwrap();
+                let addr = l.local_addr().unwrap();
+                let hostile = bs.to_vec();
+                let srv = tokio::spawn(async move { if let Ok((s, _)) = l.accept().await { if let Ok(mut ws) = tokio_tungstenite::accept_async(s).await { let _ = ws.next().await; let _ = ws.send(tokio_tungstenite::tungstenite::Message::Binary(hostile)).await; tokio::time::sleep(Duration::from_millis(1500)).await; } } });
+                let c = repe::WebSocketClient::connect(&format!("ws://{addr}/")).await.unwrap();
+                let r = match c.call_json_with_timeout("/x", &serde_json::json!(1), Duration::from_secs(3)).await { Ok(_) => "ok".to_string(), Err(e) => format!("err:{}", matches!(e, repe::RepeError::Io(ref io) if io.kind() == std::io::ErrorKind::TimedOut) as u8) };
+                srv.abort();
+                r
+            });
+            format!("net={} alive={}", res, alive_tcp(env.servers.tcp) as u8)
+        }
+    }
+}
+
 fn run_case(line: &str) -> String {
     let f = fields(line);
     let bs = unhex(&f["bytes"]);
+    if f.get("kind").map(|k| k == "net").unwrap_or(false) {
+        let t = f["target"].clone();
+        return guard(move || run_net(&t, &bs)).unwrap_or_else(|_| "crash=panic".into());
+    }
     let mut o = String::new();
     let b = bs.clone(); o.push_str(&format!("dec={}", g(move || match Header::decode(&b) { Ok(h) => format!("ok:{}", hdr_s(&h)), Err(e) => format!("err:{}", err_kind(&e)) })));
     let b = bs.clone(); o.push_str(&format!(" fs={}", g(move || res_msg(Message::from_slice(&b)))));
